@@ -1,4 +1,5 @@
 import AslModel.Lemmas.Cond
+import AslModel.Model.CondKw
 /-!
 # C12 — conditional assembly selects exactly the documented branch
 
@@ -41,6 +42,24 @@ theorem C12_symbols (cfg : Cfg) (b : Block) (hf : faithfulB cfg b = true) :
   obtain ⟨hend, hout, -⟩ := select_out (cfg := cfg) b hf
   simp only [hend]
   exact ⟨by rw [M.defs, hout, evs_define], by rw [M.uses, hout, evs_use]⟩
+
+/-- **A line that is not assembled has no effect at all - also a preprocessor line.**  After a whole pass over any
+(faithful) skeleton whose leaves may be `#define` / `#undef` lines, the text replacements established / removed are
+exactly those of the *selected* such leaves, in order (`effectsOf (selB b)`): a `#` line standing in a branch that is
+not selected - at any depth, in any kind of construct - does nothing. -/
+theorem C12_effects (cfg : Cfg) (b : Block) (hf : faithfulB cfg b = true) :
+    (endPass (run cfg init (flatB b))).effs = effectsOf (selB b) := by
+  obtain ⟨hend, hout, -⟩ := select_out (cfg := cfg) b hf
+  simp only [hend]
+  rw [M.effs, hout, evs_effect]
+
+/-- … and a part that is not assembled leaves the text replacements as they are, whatever `#` lines it holds. -/
+theorem C12_skipped_effects_nothing (cfg : Cfg) (b : Block) (m : M) (hc : m.crashed = false)
+    (hoff : m.ifAsm = false) : (run cfg m (flatB b)).effs = m.effs := by
+  have h : (run cfg m (flatB b)).out = m.out := by
+    have h := flatB_ok (cfg := cfg) b m hc
+    rw [h.out]; simp [hoff]
+  simp only [M.effs, h]
 
 /-- … as a statement about sets: a symbol is defined after the pass iff some selected leaf defines it. -/
 theorem C12_defined_iff (cfg : Cfg) (b : Block) (hf : faithfulB cfg b = true) (s : Nat) :
@@ -344,5 +363,38 @@ example : ¬ WellNested [.switch 1 (.int 1), .elsecase 0, .case [.int 1], .endca
 example : ¬ WellNested [.iff 1 (.expr true)] := by decide
 example : WellNested [.iff 1 (.expr false), .switch 1 (.int 1), .leaf { marker := 1 }, .case [.int 1], .elsecase 0, .endcase 0,
     .elseif 1 true, .elseif 0 false, .endif 0] := by decide
+
+/-- non-vacuity of `C12_effects`: `#undef 3` in a skipped `IF 0`, `#define 4` in the live `ELSE`, `#undef 5` in a
+CASE that does not match, `#undef 6` in an active IF nested in a skipped one -/
+example :
+    let b : Block := .cons (.ladder (.expr false) (.cons (.leaf { marker := 1, kind := .ppUndef, sym := 3 })
+        (.cons (.ladder (.expr true) (.cons (.leaf { marker := 5, kind := .ppUndef, sym := 6 }) .nil) .done) .nil))
+        (.els (.cons (.leaf { marker := 2, kind := .ppDefine, sym := 4 }) .nil)))
+      (.cons (.switch (.int 5) .nil (.case (.int 4) [] (.cons (.leaf { marker := 3, kind := .ppUndef, sym := 5 }) .nil)
+        (.elsecase (.cons (.leaf { marker := 4 }) .nil)))) .nil)
+    faithfulB {} b = true ∧ (endPass (run {} init (flatB b))).effs = [4] ∧ effectsOf (selB b) = [4] ∧
+      (endPass (run {} init (flatB b))).codes = [4] := by decide
+
+/-! ## the keyword of the SWITCH construct and the history of target changes (`Model/CondKw.lean`) -/
+
+/-- **Every 'keyword is occupied' variable is reset on every change of the target** (generated obligation: the list of
+`*IsOccupied*` variables of `asmdef.h` against the assignments of `asmallg.c SetCPUCore`, both from the current sources):
+what an earlier target occupied does not outlive the target. -/
+theorem C12_occupied_flags_reset : ∀ f ∈ Generated.occupiedFlags, f ∈ Generated.setCpuCoreResets := by decide
+
+/-- **Which keyword opens the construct depends on the current target only, not on the history**: after any sequence of
+target changes (CPU statements, passes, source files of one invocation - each goes through `SetCPUCore`), starting
+from any state, `SWITCH` opens the construct iff the target selected last does not occupy it, `SELECT` iff it does. -/
+theorem C12_switch_keyword_by_current_target (s : CondKw.St) (hist : List CondKw.Target) (t : CondKw.Target) :
+    CondKw.opens (CondKw.history CondKw.resetsSwitch s (hist ++ [t])) .switch = !t.occupiesSwitch ∧
+    CondKw.opens (CondKw.history CondKw.resetsSwitch s (hist ++ [t])) .select = t.occupiesSwitch := by
+  have hr : CondKw.resetsSwitch = true := by decide
+  simp only [CondKw.history, List.foldl_append, List.foldl_cons, List.foldl_nil, hr, CondKw.setCpu]
+  cases t.occupiesSwitch <;> simp [CondKw.opens]
+
+/-- … and the reset is what this rests on: without it a target that occupied SWITCH once makes SWITCH unusable as the
+construct under every later target (the model of the defect a missing reset would be). -/
+theorem C12_switch_keyword_needs_reset :
+    CondKw.opens (CondKw.history false {} [⟨true⟩, ⟨false⟩]) .switch = false := by decide
 
 end AslModel.C12
